@@ -22,7 +22,7 @@ ScenOf(a) == [subs |-> a.subs, pre |-> a.pre, prog |-> a.prog]
 
 Reset ==
   /\ S' = InitS(ScenOf(Line.act))
-  /\ SS' = { InitS(ScenOf(Line.act)) }
+  /\ SS' = { InitSx(ScenOf(Line.act), fx) : fx \in BOOLEAN }   \* either variant of the handlers may explain the trace
   /\ M' = MonInit(ScenOf(Line.act))
   /\ last' = [a |-> "init"]
   /\ div' = FALSE
